@@ -4,6 +4,13 @@
 #include "verif.h"
 #include <trompeloeil.hpp>
 #include <regex>
+// a string-view-like subject: data() / length(), no terminating NUL at its end
+struct view
+{
+  char const *p; size_t n;
+  char const *data() const { return p; }
+  size_t length() const { return n; }
+};
 extern "C" void harness(void)
 {
   static char const empty[] = "", one[] = "a", three[] = "abc";
@@ -27,5 +34,19 @@ extern "C" void harness(void)
   bool engine2 = true;
 #endif
   VASSERT(ngot == !(subj != nullptr && engine2), "C10.not_re");
+  {
+    // the searched range is exactly [data(), data() + length()): nothing beyond it is looked at, nothing inside it is skipped
+    static char const text[] = "hello world";
+    size_t k = verif_nondet_uchar() % 12;                // any prefix of the text, including all of it and none of it
+    view vw{text, k};
+    bool vgot = trompeloeil::param_matches(trompeloeil::re("world"), std::ref(vw));
+#ifdef VERIF_SYMBOLIC
+    bool vengine = verif_last_regex_verdict() != 0;
+    VASSERT(verif_regex_asked() != 0 && verif_regex_len() == k, "C10.re_subject_range_is_data_plus_length");
+    VASSERT(vgot == vengine, "C10.re_view_accepts_iff_found_in_its_own_range");
+#else
+    VASSERT(vgot == (k == 11), "C10.re_view_accepts_iff_found_in_its_own_range");   // "world" lies in the range only when it is the whole text
+#endif
+  }
   verif_reach();
 }
